@@ -80,7 +80,7 @@ def runStep {S L V : Type} (c : Cfg) (sim : Sim S V) (spec : Spec L) (eqs : List
     (st : Sess S L V) (s : Option S) : Sess S L V × Reply L V :=
   if st.k > spec.n then (st, .stopped) else
   let acc' := mergeOpt sim st.acc s
-  let frm := if c.stepFinalisesAll || !lazy then st.k else st.k - 1
+  let frm := st.k - (if c.stepFinalisesAll || !lazy then adv c spec - 1 else adv c spec)
   let hist' : Nat → S := fun i => if i < frm then st.hist i else acc'
   let row : Row L V := (lbl c spec st.k, eqs.map fun e => sim.val hist' e st.k)
   ({ k := st.k + adv c spec, steps := st.steps + 1, acc := acc', hist := hist', log := st.log ++ [row] }, .row row)
